@@ -177,9 +177,8 @@ Definition zslot_ref (C : Type) (st : hstate_z C) (k : N) : ref :=
   match zslot C st k with Some r => r | None => RT 0 end.
 
 (** the third [restrict] (slot 23) is NOT the edge of the first two (slots 9, 22),
-    and it is the cofactor: the
-    function of slot 5 with x0 := true, x2 := false (and x3, which the cube handle
-    now also fixes, := false) *)
+    and it is the cofactor: the function of slot 5 with x0 := true, x2 := false
+    (and x3, which the cube handle now also fixes, := false) *)
 Lemma exz_restrict_fresh :
   hget (s_handles (hz_s zacache exz_stA)) 23 <> hget (s_handles (hz_s zacache exz_stA)) 9 /\
   bfun_eqb 4 (zbfun_of (hz_s zacache exz_stA) (zslot_ref zacache exz_stA 23))
